@@ -17,7 +17,7 @@ NAME = 'diag'
 PROPERTY = 'C08'
 RULE = ('one run = one TBRMMDiagnostics object (+ deep copies of it) driven by '
         'a seeded history over {set control, clear control, set treatment, '
-        'read any public derived quantity, deep-copy, rejected assignment '
+        'read any public derived quantity, deep-copy, build an unrelated sibling object, rejected assignment '
         '(wrong length / 2-D / too short), caller mutates the array it passed '
         'in}; series pool mixes well-correlated, uncorrelated, level-break, '
         'autocorrelated, constant (NaN fit), integer and near-threshold '
@@ -185,9 +185,15 @@ def generate(rng, tier, profile='default'):
                   'v': _round(rng.uniform(-100, 100))})
     elif r < p_fault + p_alias + p_snap and len(objs) < 4:
       new = max(objs) + 1
-      ops.append({'op': 'snapshot', 'o': o, 'id': new})
+      if rng.random() < 0.3:
+        # an unrelated sibling object built mid-history (shares only the class)
+        sidx = rng.randrange(len(series))
+        ops.append({'op': 'new', 'id': new, 's': sidx})
+        cur_len[new] = lens[sidx]
+      else:
+        ops.append({'op': 'snapshot', 'o': o, 'id': new})
+        cur_len[new] = cur_len[o]
       objs.append(new)
-      cur_len[new] = cur_len[o]
     else:
       r2 = rng.random()
       same_len = idx_by_len[cur_len[o]]
@@ -275,10 +281,9 @@ class _Tracked:
 
 
 def execute(desc):
-  core.install_repo_path()
   import numpy as np  # pylint: disable=g-import-not-at-top
-  from matched_markets.methodology import tbrmmdesignparameters  # pylint: disable=g-import-not-at-top
-  from matched_markets.methodology import tbrmmdiagnostics  # pylint: disable=g-import-not-at-top
+  tbrmmdesignparameters, tbrmmdiagnostics = core.fresh_modules(
+      'tbrmmdesignparameters', 'tbrmmdiagnostics')
   np.seterr(all='ignore')
   par_kwargs = dict(desc['par'])
   series = [_decode_series(s) for s in desc['series']]
@@ -287,8 +292,27 @@ def execute(desc):
   def new_par():
     return tbrmmdesignparameters.TBRMMDesignParameters(**par_kwargs)
 
+  # The reference lives in a private module set (its own simulated process),
+  # re-loaded whenever the series it is asked about change, so that neither
+  # the object under test nor an earlier reference can have left anything in
+  # process-global state (class attributes, module-level caches) that the
+  # reference could pick up.
+  ref_sets = {}     # series fingerprint -> module set (a small LRU)
+
   def fresh(y, x):
-    f = tbrmmdiagnostics.TBRMMDiagnostics(np.array(y), new_par())
+    key = (np.asarray(y).tobytes(), str(np.asarray(y).dtype),
+           None if x is None else np.asarray(x).tobytes(),
+           None if x is None else str(np.asarray(x).dtype))
+    mods = ref_sets.pop(key, None)
+    if mods is None:
+      mods = core.reference_modules('tbrmmdesignparameters',
+                                    'tbrmmdiagnostics')
+      if len(ref_sets) >= 6:
+        ref_sets.pop(next(iter(ref_sets)))
+    ref_sets[key] = mods
+    rpar, rdiag = mods
+    f = rdiag.TBRMMDiagnostics(
+        np.array(y), rpar.TBRMMDesignParameters(**par_kwargs))
     if x is not None:
       f.x = np.array(x)
     return f
@@ -327,6 +351,14 @@ def execute(desc):
   for step, op in enumerate(desc['ops']):
     kind = op['op']
     stats['ops'] += 1
+    if kind == 'new':
+      yn = np.array(series[op['s']])
+      objs[op['id']] = _Tracked(
+          tbrmmdiagnostics.TBRMMDiagnostics(yn, new_par()), yn.copy(), None)
+      fault('sibling_object_built')
+      events.append([step, kind, op['id'], op['s']])
+      absig.append((kind, kinds[op['s']]))
+      continue
     t = objs.get(op.get('o', 0))
     if t is None:
       raise RuntimeError('op refers to an object that does not exist')
@@ -542,9 +574,9 @@ def normalize(desc):
   alive = {0}
   ops = []
   for op in d['ops']:
-    if op.get('o', 0) not in alive:
+    if op['op'] != 'new' and op.get('o', 0) not in alive:
       continue
-    if op['op'] == 'snapshot':
+    if op['op'] in ('snapshot', 'new'):
       alive.add(op['id'])
     ops.append(op)
   d['ops'] = ops
@@ -580,7 +612,7 @@ def simplifications(desc):
       yield d
   # ops on snapshots moved to the original
   for i, op in enumerate(desc['ops']):
-    if op.get('o', 0) != 0 and op['op'] != 'snapshot':
+    if op.get('o', 0) != 0 and op['op'] not in ('snapshot', 'new'):
       d = copy.deepcopy(desc)
       d['ops'][i]['o'] = 0
       yield d
